@@ -18,7 +18,11 @@ AsSet(s) == {s[i] : i \in 1..Len(s)}
 
 TrCase == IsEvent("case") /\ cur' = ev /\ obs' = [rd |-> "none", wr |-> "none", ms |-> 0, bytes |-> 0, applied |-> TRUE]
 TrMut == IsEvent("mutated") /\ obs' = [obs EXCEPT !.applied = ev.applied, !.bytes = ev.bytes] /\ UNCHANGED cur
-TrRet == IsEvent("ret") /\ obs' = [obs EXCEPT !.rd = ev.outcome] /\ UNCHANGED cur
+\* the error variant of a classified malformed input (Robust!ErrorOf): a different variant is drift, not a violation
+TrRet == /\ IsEvent("ret") /\ obs' = [obs EXCEPT !.rd = ev.outcome] /\ UNCHANGED cur
+         /\ ("expect_err" \in DOMAIN cur.case /\ ~(ev.outcome = "err" /\ ev.err = cur.case.expect_err))
+               => PrintT(<<"DRIFT", ToJson([id |-> cur.id, what |-> "error variant of " \o cur.case.label, exp |-> cur.case.expect_err,
+                                            got |-> IF ev.outcome = "err" THEN ev.err ELSE ev.outcome])>>)
 TrWritten == IsEvent("written") /\ obs' = [obs EXCEPT !.wr = ev.outcome] /\ UNCHANGED cur
 TrElapsed == IsEvent("elapsed") /\ obs' = [obs EXCEPT !.ms = ev.ms] /\ UNCHANGED cur
 
